@@ -1,6 +1,6 @@
 (* C18 -- Protobuf merge semantics, on the schema-directed model of the generated decoders (Msg.v).
    Only statements, each closed by [exact] of a lemma proved in Proofs/, with Print Assumptions beneath. *)
-From PVPb Require Import Wire Codec Msg Proofs.WireP Proofs.CodecP Proofs.TotalP Proofs.DepthP Proofs.MergeP Proofs.MergeCor.
+From PVPb Require Import Wire Codec Msg Proofs.WireP Proofs.CodecP Proofs.TotalP Proofs.DepthP Proofs.ShapeP Proofs.MergeP Proofs.MergeCor Proofs.UnknownP.
 Open Scope Z_scope.
 
 (* C18_concat: decoding e1 ++ e2 is decoding e1 and merging e2 into the result -- every schema, every message,
@@ -50,9 +50,28 @@ Theorem C18_unknown : forall (sc : schema) i (fs : msgdesc) e1 e2 t u a,
 Proof. exact unknown_insert_decode. Qed.
 Print Assumptions C18_unknown.
 
-(* at every nesting level: inside the record loop of an embedded message (budget c, limit = what lies behind
-   the body) an unknown record within the remaining budget is invisible *)
-Theorem C18_unknown_nested_partial : forall d (sc : schema) i (fs : msgdesc) xs t u c tail a limit f f',
+(* at every nesting level: [wrap ls inner] = at each level arbitrary complete records [pre], then the record of a
+   message-typed field (singular / optional / repeated / oneof member) holding the next level, then arbitrary bytes
+   [post]; the unknown record sits in the innermost body behind complete records b1.  All the enclosing length
+   prefixes change with the insertion; the outcomes are equal (same value and reader state, or the same error
+   class).  Side condition = the recursion budget left at that level covers the record (F-18a below is its
+   failure).  [runs] = "complete records that merge successfully into every value of that message type". *)
+Theorem C18_unknown_nested_partial : forall sc, schema_ok sc = true ->
+  forall i ls jn (fs : msgdesc) b1 b2 t u a,
+    chain sc depth_fuel i ctx_default ls jn -> nth_error sc jn = Some fs -> find_field fs t = None -> tag_ok t -> uwf u ->
+    ulevels u <= recursion_limit - Z.of_nat (length ls) ->
+    runs sc (depth_fuel - length ls) jn (ctx_default - Z.of_nat (length ls)) b1 ->
+    sizes_ok ls (b1 ++ urecord t u ++ b2) -> sizes_ok ls (b1 ++ b2) -> (i < length sc)%nat ->
+    oeq (msg_decode sc i (mkR (wrap ls (b1 ++ urecord t u ++ b2)) a)) (msg_decode sc i (mkR (wrap ls (b1 ++ b2)) a)).
+Proof. exact unknown_insert_nested. Qed.
+Print Assumptions C18_unknown_nested_partial.
+(* MISSING for the full statement C18_unknown_nested: levels that go through the value of a map entry
+   (map<K, Message>: the entry loop merges a (key, value) pair, its interchangeability relation is not set up) -- the
+   statement there is the same with [chain] extended by map steps costing two units.  The generated-message check
+   inserts unknown fields at every boundary of every level, map entries included, on every run. *)
+
+(* the loop-level fact behind it (any budget c, limit = what lies behind the body) *)
+Theorem C18_unknown_in_loop : forall d (sc : schema) i (fs : msgdesc) xs t u c tail a limit f f',
   nth_error sc i = Some fs -> find_field fs t = None -> tag_ok t -> uwf u -> ulevels u <= c <= recursion_limit ->
   c < Z.of_nat (S d) -> (limit <= length tail)%nat -> (length (urecord t u ++ tail) < f)%nat -> (length tail < f')%nat ->
   while_remaining f limit (fun x => let+ (tag, wt) := decode_key in merge_field (S d) sc i x tag wt c) (VL NMsg xs)
@@ -60,12 +79,7 @@ Theorem C18_unknown_nested_partial : forall d (sc : schema) i (fs : msgdesc) xs 
   = while_remaining f' limit (fun x => let+ (tag, wt) := decode_key in merge_field (S d) sc i x tag wt c) (VL NMsg xs)
     (mkR tail a).
 Proof. exact record_loop_unknown. Qed.
-Print Assumptions C18_unknown_nested_partial.
-(* MISSING for the full nested statement (C18_unknown_nested: for every accepted nest `nest path leaf` and every
-   unknown record u with ulevels u <= recursion_limit - path_cost path, decoding `nest path (b1 ++ urecord t u ++ b2)`
-   equals decoding `nest path (b1 ++ b2)` whenever b1 ends at a record boundary): the lifting of this loop-level
-   equality through the length prefixes of the enclosing records (the prefix changes with the insertion).  The
-   generated-message check inserts unknown fields at every boundary of every level on every run. *)
+Print Assumptions C18_unknown_in_loop.
 
 (* F-18a: the statement WITHOUT the budget condition is false -- inside the 100th nesting level (which is
    accepted) the budget is 0 and skip_field rejects even an unknown varint *)
